@@ -10,6 +10,8 @@ Observation is through behaviour only (never by reading current_options).
 """
 from __future__ import annotations
 
+import os
+
 import threading
 from typing import Any, Dict, List, Optional, Tuple
 
@@ -180,7 +182,7 @@ def _s1(sh: Dict[str, Any]) -> Dict[str, Any]:
         if why and len(cex) < 3:
             cex.append({"plan": conc, "why": why})
 
-    eng = Engine(max_seconds=300)
+    eng = Engine(max_seconds=300 * (6 if os.environ.get("VERIF_TIER_EFFECTIVE") == "thorough" else 1))
     eng.explore(harness)
     return par.shard_result(eng, shard=f"depth{depth}", cex=cex, samples=samples)
 
@@ -276,7 +278,7 @@ def _s2(sh: Dict[str, Any]) -> Dict[str, Any]:
         if why and len(cex) < 3:
             cex.append({"threads": m, "nested": nested, "why": why})
 
-    eng = Engine(max_seconds=300)
+    eng = Engine(max_seconds=300 * (6 if os.environ.get("VERIF_TIER_EFFECTIVE") == "thorough" else 1))
     eng.explore(harness)
     return par.shard_result(eng, shard="two-threads", cex=cex, samples=samples)
 
